@@ -143,7 +143,7 @@ func (sp *Spec) LoadSpecFile(path string) error {
 				sp.Symbols[x.List[1].Atom] = true
 			}
 		case "assert":
-			sp.Prelude = append(sp.Prelude, x.String())
+			sp.Prelude = append(sp.Prelude, sp.litCodes(x).String())
 		case "defmacro":
 			m := &Macro{Name: x.List[1].List[0].Atom, Body: x.List[2]}
 			for _, p := range x.List[1].List[1:] {
@@ -494,4 +494,19 @@ func onlyWf(x *Sx) bool {
 		return true
 	}
 	return false
+}
+
+// litCodes replaces string literals by their integer codes (strings are Int-coded).
+func (sp *Spec) litCodes(x *Sx) *Sx {
+	if x.IsAtom() {
+		if strings.HasPrefix(x.Atom, "\"") {
+			return A(fmt.Sprintf("%d", sp.Strs.Code(unquote(x.Atom))))
+		}
+		return x
+	}
+	out := &Sx{IsL: true}
+	for _, a := range x.List {
+		out.List = append(out.List, sp.litCodes(a))
+	}
+	return out
 }
